@@ -6,7 +6,15 @@
    (the > 31 byte core libfunc/type ids the implementation agrees to serialize) with their
    starknet_keccak.  [check_hyp] evaluates the hypotheses of C18_de_ser on that table. *)
 From C18 Require Export Compress Serde.
+From Coq Require Export Uint63.
 Local Open Scope N_scope.
+
+(* Big numbers of the printed cases: little-endian 60-bit chunks as primitive integers (a 250-bit
+   hex literal costs Coq 8.16 about 5 ms to parse, a primitive integer nothing). *)
+Definition B (l : list int) : N :=
+  fold_right (fun c acc => acc * 2 ^ 60 + Z.to_N (Uint63.to_Z c)) 0 l.
+Definition ZB (l : list int) : Z := Z.of_N (B l).
+Definition ZBn (l : list int) : Z := (- Z.of_N (B l))%Z.
 
 (* short constructors used by the printed cases *)
 Definition i_ (n : N) : id64 := {| cid_id := n; cid_dbg := None |}.
